@@ -14,7 +14,11 @@ RULE = ('transition = (config, controller state, input class) -> next state, com
         'positive ones above tol, zeros, 2-d batches, float32/float64/python float), each also judged directly with the documented conditions; '
         'non-trivial = every transition (distinct by tuple); traces = random long sequences with resets (batches with negative members, whole-batch plateaus) '
         'and real driver loops in several call forms on one controller (second call on a stopped controller, user loop then driver, forced grid state; '
-        'ICP / MPC called twice with a used stepper), each judged directly: no step while continual() is False, loop ends at the first documented cause')
+        'ICP / MPC called twice with a used stepper), each judged directly: no step while continual() is False, loop ends at the first documented cause; '
+        'several objects alive at once built with DEFAULT arguments (ReduceToBason(steps), StopOnPlateau(optimizer, steps), MPC / ICP without a stepper, '
+        'next to ones with a given stepper), constructions / steps / resets / driver calls interleaved, inner solver real or scripted exact losses reaching '
+        'budget / plateau / tol / re-armed patience: every object judged on its own history under the documented default configuration '
+        '(patience 5, decreasing 1e-3, tol 1e-5, MPC 10 steps, ICP 200 steps), one inner solve per controller step plus the final one')
 
 
 def b(x):
@@ -186,6 +190,35 @@ def run(ctx):
             t, cfg[0], cfg[1], qlit(cfg[2]), qlit(cfg[3]),
             coq_list(('inr tt' if o is None else 'inl ' + qlist(o)) for o in ops),
             coq_list('(%d%%Z, %d%%Z, %s)' % (a, p, b(c)) for a, p, c in trace)))
+    reported = set()
+    # several ReduceToBason objects alive at once, built with the DEFAULT patience / decreasing / tol, stepped and reset in an
+    # interleaved order: every object must follow its own history under the documented defaults (5, 1e-3, 1e-5)
+    for t in range(ctx.scale(6, 40)):
+        nobj = rng.randint(2, 4)
+        c = dict(kind='defaults', driver='rtb', steps=[rng.randint(2, 24) for _ in range(nobj)])
+        ops = []
+        cur = [rng.choice([1024.0, 64.0, 3.0]) for _ in range(nobj)]
+        for k in range(rng.randint(12, 70)):
+            i = rng.randrange(nobj)
+            if rng.random() < 0.06:
+                ops.append((i, None))
+            else:
+                cur[i] = cur[i] * rng.choice([0.5, 0.75, 1.0, 1.0, 1.0, 1.25, 0.03125])
+                ops.append((i, cur[i]))
+        c['ops'] = enc_ops(ops)
+        per = run_default_rtb(torch, c)
+        why = judge_default_rtb(c, per)
+        if why and 'defaults-rtb' not in reported:
+            reported.add('defaults-rtb')
+            ctx.violation('controller:defaults-rtb', why, c)
+        for i, (ops, trace) in enumerate(per):
+            ctx.case(('defaults-rtb', t, i, c['steps'][i], len(ops)), branch='defaults-rtb')
+            ctx.traces += 1
+            tr_meta.append(dict(c, obj=i))
+            tr_cases.append('(%d%%nat, (%d%%Z, %d%%Z, %s, %s), %s, %s)' % (
+                len(tr_meta) - 1, c['steps'][i], DOC_PATIENCE, qlit(DOC_DECREASING), qlit(DOC_TOL),
+                coq_list(('inr tt' if o is None else 'inl ' + qlist(o)) for o in ops),
+                coq_list('(%d%%Z, %d%%Z, %s)' % (a, p, b(cc)) for a, p, cc in trace)))
     for si, sh in enumerate(shard(tr_cases, 100)):
         files.append(('rtbTr_%03d' % si, hdr + 'Eval vm_compute in rtb_trace_bad %s.\n' % coq_list(sh)))
     ctx.samples.append(dict(tr_meta[0], ops=tr_meta[0]['ops'][:6], trace=tr_meta[0]['trace'][:6]))
@@ -195,7 +228,6 @@ def run(ctx):
     # grid state (incl. stopped) before the call.  The loss stream seen by the controller over the whole scenario is replayed
     # through the model loop from the same initial state, and judged directly with the documented conditions (judge_*).
     dr_cases_rtb, dr_cases_sop, dr_meta_rtb, dr_meta_sop = [], [], [], []
-    reported = set()
     nopt = ctx.scale(42, 160)
     for t in range(nopt):
         cfg = (rng.randint(1, 8), rng.randint(1, 4), rng.choice([1e-3, 0.25, 1e-9]))
@@ -222,6 +254,30 @@ def run(ctx):
         dr_cases_sop.append('(%d%%nat, (%d%%Z, %d%%Z, %s), (%d%%Z, %d%%Z, %s), %s, (%d%%nat, %d%%Z, %d%%Z))' % (
             len(dr_meta_sop) - 1, cfg[0], cfg[1], qlit(cfg[2]), init[0], init[1], b(init[2]),
             coq_list('(%s, %s, %d%%nat)' % (qlit(a), qlit(l), rj) for a, l, rj in r['stream']), r['n'], r['final'][0], r['final'][1]))
+    # several StopOnPlateau objects alive at once (each on its own optimizer), built with the DEFAULT patience / decreasing, user
+    # loops and optimize() calls interleaved between the objects: each object is judged on its own stream under the documented
+    # defaults (5, 1e-3)
+    for t in range(ctx.scale(4, 16)):
+        nobj = 4 if t == 0 else rng.randint(2, 4)
+        c = dict(kind='defaults', driver='sop', ops=enc_ops(SOP_DEFAULT_OPS if t == 0 else random_sop_ops(rng, nobj)),
+                 objs=[dict(steps=rng.randint(1, 14), optim=('GN' if (t + i) % 3 == 2 else 'LM'), x0=[rng.uniform(0.5, 3.0), rng.choice([-1, 1]) * rng.uniform(0.25, 2.0)],
+                            damping=rng.choice([1e-6, 1e-2, 10.0]), reject=rng.choice([0, 1, 16])) for i in range(nobj)])
+        try:
+            per = run_default_sop(pp, torch, c)
+        except Exception as e:
+            ctx.notes.append('default StopOnPlateau scenario %r raised %r' % (c, e))
+            continue
+        why = judge_default_sop(c, per)
+        if why and 'defaults-sop' not in reported:
+            reported.add('defaults-sop')
+            ctx.violation('controller:defaults-sop', why, c)
+        for i, r in enumerate(per):
+            ctx.case(('defaults-sop', t, i, c['objs'][i]['steps'], r['n']), branch='defaults-sop')
+            ctx.traces += 1
+            dr_meta_sop.append(dict(c, obj=i))
+            dr_cases_sop.append('(%d%%nat, (%d%%Z, %d%%Z, %s), (%d%%Z, %d%%Z, %s), %s, (%d%%nat, %d%%Z, %d%%Z))' % (
+                len(dr_meta_sop) - 1, c['objs'][i]['steps'], DOC_PATIENCE, qlit(DOC_DECREASING), 0, 0, b(True),
+                coq_list('(%s, %s, %d%%nat)' % (qlit(a), qlit(l), rj) for a, l, rj in r['stream']), r['n'], r['final'][0], r['final'][1]))
     files.append(('sopD', hdr + SOP_DRIVE_FROM + 'Eval vm_compute in sop_drive_from_bad %s.\n' % coq_list(dr_cases_sop)))
     if dr_meta_sop:
         ctx.samples.append(dr_meta_sop[1 % len(dr_meta_sop)])
@@ -263,6 +319,27 @@ def run(ctx):
             ctx.case(('mpc', t, c['cfg'], ci, n), branch='driver-mpc:call%d' % ci)
             ctx.traces += 1
             dr_meta_rtb.append(m)
+    # several MPC / ICP objects alive at once, most of them built WITHOUT a stepper (the documented default: ReduceToBason with a
+    # maximum of 10 / 200 steps and the default patience, decreasing, tol), constructions and calls interleaved; the inner solver
+    # is either the real one or replaced by scripted exact losses that reach every documented cause (the budget included); every
+    # call is judged on the stream its controller saw, under the documented default configuration
+    for drv in ('mpc', 'icp'):
+        for t in range(ctx.scale(2, 6) if drv == 'mpc' else ctx.scale(1, 3)):
+            c = dict(kind='defaults', driver=drv, gseed=ctx.seed * 131 + t, ops=enc_ops(DRIVER_DEFAULT_OPS if t == 0 else random_driver_ops(rng)))
+            try:
+                calls = run_default_drivers(pp, torch, c)
+            except Exception as e:
+                ctx.notes.append('default %s scenario %r raised %r' % (drv, c, e))
+                continue
+            for m in calls:
+                m = dict(c, **m)
+                why = judge_default_call(m)
+                if why and 'defaults-' + drv not in reported:
+                    reported.add('defaults-' + drv)
+                    ctx.violation('controller:defaults-' + drv, why, dict(c, call=m['call']))
+                ctx.case(('defaults-' + drv, t, m['call'], m['script'], m['n']), branch='defaults-%s:%s' % (drv, m['script']))
+                ctx.traces += 1
+                dr_meta_rtb.append(m)
     for k, m in enumerate(dr_meta_rtb):
         cfg = m['cfg']
         dr_cases_rtb.append('(%d%%nat, (%d%%Z, %d%%Z, %s, %s), %s, %d%%nat)' % (k, cfg[0], cfg[1], qlit(cfg[2]), qlit(cfg[3]), coq_list(qlist(l) for l in m['stream']), m['n']))
@@ -290,7 +367,13 @@ def run(ctx):
         why = replay(ctx, m['case'])
         if why:
             m['explained'] = True
-            ctx.violation('controller:' + m['case']['kind'], why, m['case'])
+            c = m['case']
+            if c['kind'] == 'defaults':
+                if 'defaults-' + c['driver'] not in reported:
+                    reported.add('defaults-' + c['driver'])
+                    ctx.violation('controller:defaults-' + c['driver'], why, {k: v for k, v in c.items() if k in ('kind', 'driver', 'gseed', 'ops', 'steps', 'objs', 'call', 'obj')})
+                continue
+            ctx.violation('controller:' + c['kind'], why, c)
 
 
 def dy_pos(rng):
@@ -531,7 +614,7 @@ def run_mpc_case(pp, torch, c):
 def judge_rtb_drive(m):
     """ICP / MPC reset the stepper and loop: the stream seen in one call must end exactly at the first documented cause"""
     cfg = m['cfg']
-    head = '%s call %d with ReduceToBason(steps=%s,patience=%s,decreasing=%s,tol=%s)%s handed over in state %s: ' % (
+    head = m.get('head') or '%s call %d with ReduceToBason(steps=%s,patience=%s,decreasing=%s,tol=%s)%s handed over in state %s: ' % (
         m['kind'].upper(), m['call'] + 1, cfg[0], cfg[1], cfg[2], cfg[3], ' (after MPC.__init__ lowered steps by one)' if m['kind'] == 'mpc' else '', m.get('dirty'))
     state = (0, 0, None, True)
     for i, l in enumerate(m['stream']):
@@ -547,12 +630,327 @@ def judge_rtb_drive(m):
     return None
 
 
+# ---------------------------------------------------------------------------------------------
+# controllers / drivers built with DEFAULT arguments, several objects alive at once
+# the documented defaults (docstrings of ReduceToBason, StopOnPlateau, MPC, ICP)
+DOC_PATIENCE, DOC_DECREASING, DOC_TOL = 5, 1e-3, 1e-5
+DOC_DRIVER_STEPS = dict(mpc=10, icp=200)
+SCRIPT_NAMES = ['budget', 'plateau', 'tol', 'rearm']
+
+
+def script_value(name, k):
+    """scripted exact loss of the k-th inner solve (k = 0, 1, ...); every value and every relative decrease is far from the thresholds"""
+    if name == 'budget':        # decreases by more than 1e-3 (relative) for 250 steps, far above tol: only the budget can stop the loop
+        return 4096.0 * (256 - k) if k < 250 else 4096.0 * 6
+    if name == 'plateau':       # one decrease, then an exact plateau: `patience` failed steps
+        return 64.0 if k == 0 else 8.0
+    if name == 'tol':           # falls below tol at the third step
+        return [4.0, 2.0][k] if k < 2 else 2.0 ** -20
+    if name == 'rearm':         # patience - 1 failed steps, a decrease (re-arms the count), then a plateau
+        return 8.0 if k < 4 else 4.0
+    raise ValueError(name)
+
+
+# ('new', object index, None = no stepper given | k = ReduceToBason(steps=k) given), ('call', object index, script or 'real')
+DRIVER_DEFAULT_OPS = [('new', 0, None), ('new', 1, None), ('call', 0, 'budget'), ('call', 1, 'budget'), ('new', 2, None), ('call', 2, 'budget'),
+                      ('call', 1, 'plateau'), ('new', 3, 4), ('call', 3, 'budget'), ('call', 0, 'rearm'), ('call', 2, 'tol'), ('call', 1, 'real'),
+                      ('call', 0, 'budget'), ('new', 4, None), ('call', 4, 'real'), ('call', 4, 'budget'), ('call', 3, 'plateau'), ('call', 1, 'budget')]
+
+
+def random_driver_ops(rng):
+    ops, n = [], 0
+    for _ in range(rng.randint(8, 14)):
+        if n < 2 or (n < 5 and rng.random() < 0.3):
+            ops.append(('new', n, None if rng.random() < 0.75 else rng.randint(2, 6)))
+            n += 1
+        else:
+            ops.append(('call', rng.randrange(n), rng.choice(SCRIPT_NAMES + ['budget', 'real'])))
+    return ops
+
+
+def _mpc_problem(pp, torch, gseed):
+    n_state, n_ctrl, Th = 2, 1, 3
+    g = torch.Generator().manual_seed(gseed)
+    A = torch.eye(n_state, dtype=torch.float64) + 0.1 * torch.randn(n_state, n_state, generator=g, dtype=torch.float64)
+    B = torch.randn(n_state, n_ctrl, generator=g, dtype=torch.float64)
+    lti = pp.module.LTI(A, B, torch.eye(n_state, dtype=torch.float64), torch.zeros(n_state, n_ctrl, dtype=torch.float64))
+    Q = torch.tile(torch.eye(n_state + n_ctrl, dtype=torch.float64), (1, Th, 1, 1))
+    p = torch.randn(1, Th, n_state + n_ctrl, generator=g, dtype=torch.float64)
+    xs = [torch.randn(1, n_state, generator=g, dtype=torch.float64) for _ in range(3)]
+    return lti, Q, p, Th, xs
+
+
+def run_default_drivers(pp, torch, c):
+    """One scenario of MPC / ICP objects (built without a stepper unless the op says so) and calls on them, in the given order.
+    Returns one dict per call: the documented configuration of that object's controller, the loss stream the controller saw,
+    the number of controller steps and of inner solver invocations (lqr / svdtf)."""
+    import sys
+    from pypose.utils.stepper import ReduceToBason
+    drv = c['driver']
+    log, st = [], dict(script=None, k=0, inner=0)
+    orig_step = ReduceToBason.step
+
+    def tap(self, loss):
+        log.append((bool(self.continual()), [float(v) for v in torch.as_tensor(loss).detach().reshape(-1).tolist()]))
+        return orig_step(self, loss)
+
+    class Inner(torch.nn.Module):
+        """MPC's inner solver: counts the invocations; scripted losses instead of the real solve when a script is active"""
+        def __init__(self, real):
+            super().__init__()
+            self.real = real
+
+        def forward(self, x_init, *a, **kw):
+            st['inner'] += 1
+            if st['script'] is None:
+                return self.real(x_init, *a, **kw)
+            v = script_value(st['script'], st['k'])
+            st['k'] += 1
+            return x_init, torch.zeros(1, 3, 1, dtype=torch.float64), torch.tensor([v], dtype=torch.float64)
+    objs, out = {}, []
+    if drv == 'mpc':
+        lti, Q, p, Th, xs = _mpc_problem(pp, torch, c['gseed'])
+    else:
+        g = torch.Generator().manual_seed(c['gseed'])
+        src = torch.randn(1, 32, 3, generator=g, dtype=torch.float64)
+        tgt = pp.SE3(torch.tensor([[0.05, -0.02, 0.03, 0.0, 0.0, 0.01, 1.0]], dtype=torch.float64)).unsqueeze(-2).Act(src)
+        mod = sys.modules[pp.module.ICP.__module__]
+        real_knn, real_svdtf = mod.knn, mod.svdtf
+
+        def knn(*a, **kw):
+            res = real_knn(*a, **kw)
+            if st['script'] is None:
+                return res
+            v = script_value(st['script'], st['k'])
+            st['k'] += 1
+            return torch.full_like(res[0], v), res[1]
+
+        def svdtf(*a, **kw):
+            st['inner'] += 1
+            return real_svdtf(*a, **kw)
+        mod.knn, mod.svdtf = knn, svdtf
+    ReduceToBason.step = tap
+    try:
+        ncall = 0
+        for op in dec_ops(c['ops']):
+            if op[0] == 'new':
+                k = op[2]
+                kw = {} if k is None else dict(stepper=ReduceToBason(steps=k))
+                steps = DOC_DRIVER_STEPS[drv] if k is None else k
+                if drv == 'mpc':
+                    o = pp.module.MPC(lti, Q, p, Th, **kw)
+                    o.lqr = Inner(o.lqr)
+                else:
+                    o = pp.module.ICP(**kw)
+                # MPC: n-1 loops + 1 loop with gradient
+                objs[op[1]] = (o, steps, (steps - 1 if drv == 'mpc' else steps, DOC_PATIENCE, DOC_DECREASING, DOC_TOL), [0])
+                continue
+            o, steps, cfg, cnt = objs[op[1]]
+            st.update(script=None if op[2] == 'real' else op[2], k=0, inner=0)
+            del log[:]
+            if drv == 'mpc':
+                o(1, xs[cnt[0] % len(xs)])
+            else:
+                o(src * (1.0 - 0.25 * (cnt[0] % 2)) + 0.0625 * (cnt[0] % 3), tgt)
+            cnt[0] += 1
+            stream = [l for _, l in log]
+            if not all(pre for pre, _ in log):
+                stream = stream + [['stepped-while-stopped']]
+            out.append(dict(call=ncall, obj=op[1], given=objs_given(dec_ops(c['ops']), op[1]), nth=cnt[0], script=op[2], steps=steps, cfg=cfg, stream=stream, n=len(log), inner=st['inner']))
+            ncall += 1
+    finally:
+        ReduceToBason.step = orig_step
+        if drv == 'icp':
+            mod.knn, mod.svdtf = real_knn, real_svdtf
+    return out
+
+
+def enc_ops(ops):
+    """compact text form of an op list (keeps the replay files small): fields joined by ':', None = '-'"""
+    return ' '.join(':'.join('-' if x is None else repr(x) if isinstance(x, float) else str(x) for x in op) for op in ops)
+
+
+def dec_ops(spec):
+    if not isinstance(spec, str):
+        return [tuple(op) for op in spec]
+
+    def field(x):
+        if x == '-':
+            return None
+        for conv in (int, float):
+            try:
+                return conv(x)
+            except ValueError:
+                pass
+        return x
+    return [tuple(field(x) for x in tok.split(':')) for tok in spec.split()]
+
+
+def objs_given(ops, i):
+    return [op[2] for op in ops if op[0] == 'new' and op[1] == i][0]
+
+
+def describe_ops(ops):
+    return ' '.join(('new#%d(%s)' % (op[1], 'default' if op[2] is None else 'stepper=ReduceToBason(steps=%s)' % op[2])) if op[0] == 'new'
+                    else '#%d(%s)' % (op[1], op[2]) for op in ops)
+
+
+def judge_default_call(m):
+    drv = m['driver'].upper()
+    # the objects built and the calls made up to and including the judged call (later ones cannot matter)
+    upto, seen = [], 0
+    for op in dec_ops(m['ops']):
+        upto.append(op)
+        seen += op[0] == 'call'
+        if seen > m['call']:
+            break
+    head = ('%s objects built / called in the order [%s]; call %d = call %d on object #%d (built %s; documented controller ReduceToBason(steps=%s,patience=%s,'
+            'decreasing=%s,tol=%s)%s), inner losses %s: ' % (
+                drv, describe_ops(upto), m['call'] + 1, m['nth'], m['obj'], 'without a stepper' if m['given'] is None else 'with ReduceToBason(steps=%s)' % m['given'],
+                m['steps'], DOC_PATIENCE, DOC_DECREASING, DOC_TOL, ', one step kept for the loop with gradient' if m['driver'] == 'mpc' else '',
+                'of the real solver' if m['script'] == 'real' else 'scripted %r %s...' % (m['script'], [script_value(m['script'], k) for k in range(4)])))
+    why = judge_rtb_drive(dict(m, head=head))
+    if why:
+        return why
+    if m['inner'] != m['n'] + 1:
+        return head + '%d inner solver invocations (lqr / svdtf) for %d controller steps (documented loop: one per step, one final)' % (m['inner'], m['n'])
+    return None
+
+
+def run_default_rtb(torch, c):
+    """ReduceToBason(steps) objects with default patience / decreasing / tol; ops = (object index, loss | None = reset), interleaved.
+    Returns per object (its own ops, observed (steps, patience_count, continual) after each op)."""
+    from pypose.utils.stepper import ReduceToBason
+    sts = [ReduceToBason(s) if i % 2 else ReduceToBason(steps=s) for i, s in enumerate(c['steps'])]
+    per = [([], []) for _ in sts]
+    for i, v in dec_ops(c['ops']):
+        st = sts[i]
+        if v is None:
+            st.reset()
+            per[i][0].append(None)
+        else:
+            # a python float becomes a float32 tensor inside step(): only pass one when that is exact
+            st.step(v if (len(per[i][0]) % 3 == 0 and float(torch.tensor(v)) == v) else torch.tensor(v, dtype=torch.float64))
+            per[i][0].append([v])
+        per[i][1].append((st.steps, st.patience_count, bool(st.continual())))
+    return per
+
+
+def judge_default_rtb(c, per):
+    for i, (ops, trace) in enumerate(per):
+        cfg = (c['steps'][i], DOC_PATIENCE, DOC_DECREASING, DOC_TOL)
+        state = (0, 0, None, True)
+        for k, (o, got) in enumerate(zip(ops, trace)):
+            state = (0, 0, None, True) if o is None else doc_rtb(cfg, state, o)
+            if (got[0], got[2]) != (state[0], state[3]):
+                return ('%d ReduceToBason objects built with steps=%s and default patience / decreasing / tol, stepped in the interleaved order (object, loss | None = reset) %s: '
+                        'object #%d after its own history %s has (steps, continual)=%s, documented (defaults %s, %s, %s) %s' % (
+                            len(per), c['steps'], c['ops'], i, ops[:k + 1], (got[0], got[2]), DOC_PATIENCE, DOC_DECREASING, DOC_TOL, (state[0], state[3])))
+    return None
+
+
+# ('new', i), ('loop', i, k | None = until the stop), ('optimize', i); every object is driven to its stop at the end
+SOP_DEFAULT_OPS = [('new', 0), ('new', 1), ('loop', 0, 2), ('loop', 1, 1), ('new', 2), ('optimize', 2), ('loop', 0, 1), ('optimize', 1), ('new', 3),
+                   ('optimize', 0), ('optimize', 2), ('loop', 3, None), ('optimize', 3), ('optimize', 1)]
+
+
+def random_sop_ops(rng, nobj):
+    ops, made = [], 0
+    for _ in range(rng.randint(6, 12)):
+        if made < nobj and (made < 2 or rng.random() < 0.4):
+            ops.append(('new', made))
+            made += 1
+        else:
+            i = rng.randrange(made)
+            ops.append(('loop', i, rng.choice([1, 1, 2, 3, None])) if rng.random() < 0.6 else ('optimize', i))
+    for i in range(made, nobj):
+        ops.append(('new', i))
+    order = list(range(nobj))
+    rng.shuffle(order)
+    return ops + [('optimize', i) if rng.random() < 0.7 else ('loop', i, None) for i in order]
+
+
+def run_default_sop(pp, torch, c):
+    """StopOnPlateau(optimizer, steps) objects with default patience / decreasing, each on its own model and optimizer; user loops
+    and optimize() calls interleaved.  Returns per object what run_optimize_case returns."""
+    from pypose.optim.scheduler import StopOnPlateau
+
+    class Quad(torch.nn.Module):
+        def __init__(self, x0):
+            super().__init__()
+            self.x = torch.nn.Parameter(torch.tensor(x0, dtype=torch.float64))
+
+        def forward(self, inp):
+            return (self.x ** 2 - inp)
+    inp = torch.tensor([1.0, 2.0], dtype=torch.float64)
+    objs = {}
+
+    def build(i):
+        o = c['objs'][i]
+        model = Quad(list(o['x0']))
+        opt = pp.optim.GN(model) if o['optim'] == 'GN' else pp.optim.LM(model, strategy=pp.optim.strategy.Constant(damping=o['damping']), reject=o['reject'])
+        sch = StopOnPlateau(opt, o['steps']) if i % 2 else StopOnPlateau(opt, steps=o['steps'])
+        r = dict(stream=[], before_opt=[], before_sch=[], marks=[], phases=[])
+        ostep, sstep = opt.step, sch.step
+
+        def opt_step(*a, **k):
+            r['before_opt'].append(bool(sch.continual()))
+            return ostep(*a, **k)
+
+        def sch_step(loss):
+            r['before_sch'].append(bool(sch.continual()))
+            r['stream'].append((float(opt.last), float(opt.loss), int(getattr(opt, 'reject_count', 0))))
+            return sstep(loss)
+        opt.step, sch.step = opt_step, sch_step
+        objs[i] = (opt, sch, r)
+    for op in dec_ops(c['ops']):
+        if op[0] == 'new':
+            build(op[1])
+            continue
+        opt, sch, r = objs[op[1]]
+        if op[0] == 'optimize':
+            sch.optimize(input=inp)
+        else:
+            k = 0
+            while sch.continual() and (op[2] is None or k < op[2]):
+                sch.step(opt.step(inp))
+                k += 1
+        r['phases'].append(tuple(op[:1]) + tuple(op[2:]))
+        r['marks'].append(len(r['stream']))
+    out = []
+    for i in range(len(c['objs'])):
+        opt, sch, r = objs[i]
+        r.update(n=len(r['stream']), opt_calls=len(r['before_opt']), final=(sch.steps, sch.patience_count, bool(sch.continual())))
+        out.append(r)
+    return out
+
+
+def judge_default_sop(c, per):
+    for i, r in enumerate(per):
+        o = c['objs'][i]
+        why = judge_optimize(dict(cfg=(o['steps'], DOC_PATIENCE, DOC_DECREASING), optim=o['optim'], init=(0, 0, True), phases=r['phases']), r)
+        if why:
+            return ('%d StopOnPlateau objects built with steps=%s and default patience / decreasing, each on its own optimizer, used in the interleaved order %s; object #%d '
+                    '(documented defaults patience=%s, decreasing=%s): %s' % (len(per), [x['steps'] for x in c['objs']], c['ops'], i, DOC_PATIENCE, DOC_DECREASING, why))
+    return None
+
+
 def replay(ctx, c):
     pp = import_pypose()
     import torch
     from pypose.utils.stepper import ReduceToBason
     from pypose.optim.scheduler import StopOnPlateau
     k = c.get('kind')
+    if k == 'defaults':
+        if c['driver'] == 'rtb':
+            return judge_default_rtb(c, run_default_rtb(torch, c))
+        if c['driver'] == 'sop':
+            return judge_default_sop(c, run_default_sop(pp, torch, c))
+        for m in run_default_drivers(pp, torch, c):
+            why = judge_default_call(dict(c, **m))
+            if why:
+                return why
+        return None
     if k == 'rtb-trans':
         cfg, (steps, pc, lastv, cont), loss = c['cfg'], c['state'], c['loss']
         got = rtb_apply(torch, ReduceToBason, c)
